@@ -53,6 +53,7 @@ func buildIndexed(n Node, addr []int, reg *registry) any {
 		}
 		m["e"] = []any{}
 		m["nn"] = false // applied below, after the elements went in
+		m["er"] = false
 		s := BuildStack(m)
 		for i, k := range nKids(n, "e") {
 			s.Push(buildIndexed(k, append(append([]int{}, addr...), i+1), reg))
@@ -60,6 +61,9 @@ func buildIndexed(n Node, addr []int, reg *registry) any {
 		reg.stacks[s.Addr()] = addrStr(addr)
 		if nBool(n, "nn") {
 			s.SetNoNesting(true) // switched on AFTER the elements went in: it concerns future pushes only, never what is reachable
+		}
+		if nBool(n, "er") {
+			s.SetErr(errUser)
 		}
 		switch nStr(n, "form") {
 		case "alias":
@@ -166,8 +170,15 @@ func init() {
 						res = map[string]any{"ok": false, "addr": []int{}, "note": "PANIC: " + fmt.Sprint(r)}
 					}
 				}()
-				v, ok := root.Traverse(intsOf(p)...)
+				path := append(make([]int, 0, len(intsOf(p))+2), intsOf(p)...) // the caller's own slice, with spare capacity
+				given := append([]int{}, path...)
+				v, ok := root.Traverse(path...)
 				res = map[string]any{"ok": ok, "addr": []int{}, "note": ""}
+				if !reflect.DeepEqual(path, given) {
+					res["note"] = fmt.Sprintf("the caller's path slice was rewritten: %v -> %v", given, path)
+					out = append(out, res)
+					return
+				}
 				if ok {
 					a := reg.project(v)
 					if strings.HasPrefix(a, "<") {
@@ -207,7 +218,7 @@ func init() {
 func (g *treeGen) travStack(depth int) Node {
 	n := Node{"t": "stk", "k": []string{"AND", "OR", "NOT", "LIST", "BASIC"}[g.rng.Intn(5)], "form": "native", "paren": false, "fold": false,
 		"nspad": false, "lonce": false, "sym": []any{}, "delim": []any{}, "enc": []any{}, "neg": g.rng.Intn(2) == 0, "fwd": g.rng.Intn(2) == 0,
-		"mtx": false, "cap": 0, "nn": g.rng.Intn(3) == 0}
+		"mtx": false, "cap": 0, "nn": g.rng.Intn(3) == 0, "er": g.rng.Intn(4) == 0}
 	w := g.rng.Intn(5)
 	kids := []any{}
 	for i := 0; i < w; i++ {
@@ -251,6 +262,12 @@ func opID(op stackage.Operator) string {
 	}
 	if _, ok := op.(sliceOp); ok {
 		return "uslice"
+	}
+	if co, ok := op.(stackage.ComparisonOperator); ok && (co < stackage.Eq || co > stackage.Ge) {
+		if co == 0 {
+			return "op0"
+		}
+		return "op9" // a built-in operator value outside Eq..Ge
 	}
 	switch op.String() {
 	case "=":
